@@ -1093,6 +1093,59 @@ fn cmd_image_alpha() {
         let r = panic::catch_unwind(|| Image::from_png_data(png.clone()).map(|_| ()).map_err(|e| e.to_string()));
         if r.is_err() && bad.len() < 6 { bad.push(format!("{{\"png_header\":\"{w} x {h}, bit depth {depth}, colour type {ctype}\",\"outcome\":\"PANIC\"}}")); }
     }
+    // several images in ONE document: same geometry, sample data that differs only in the middle, at both ends, or not at all; every
+    // page's image XObject (and soft mask) must decode to the pixels supplied for THAT page
+    {
+        use oxidize_pdf::parser::objects::PdfObject;
+        use oxidize_pdf::parser::{PdfDocument, PdfReader};
+        let (w, h) = (96u32, 64u32);
+        let mk = |variant: u8, rgba: bool| -> Vec<u8> {
+            let comps = if rgba { 4 } else { 1 };
+            let mut v = vec![0xEEu8; (w * h) as usize * comps];
+            let n = v.len();
+            match variant { 1 => { v[n / 2] = 0x11; v[n / 2 + 1] = 0x22; } 2 => { v[n / 2 + 7] = 0x33; } 3 => { v[0] = 0x44; v[n - 1] = 0x55; } _ => {} }
+            v
+        };
+        for rgba in [false, true] {
+            evaluated += 1;
+            let variants = [0u8, 1, 2, 3, 0];
+            let r = panic::catch_unwind(|| -> Result<Vec<usize>, String> {
+                let mut doc = oxidize_pdf::Document::new();
+                for (i, var) in variants.iter().enumerate() {
+                    let img = if rgba { Image::from_rgba_data(mk(*var, true), w, h) } else { Image::from_gray_data(mk(*var, false), w, h) }.map_err(|e| e.to_string())?;
+                    let mut page = oxidize_pdf::Page::a4();
+                    page.add_image(format!("Im{i}"), img);
+                    page.draw_image(&format!("Im{i}"), 10.0, 10.0, 96.0, 64.0).map_err(|e| e.to_string())?;
+                    doc.add_page(page);
+                }
+                let bytes = doc.to_bytes().map_err(|e| e.to_string())?;
+                let parsed = PdfDocument::new(PdfReader::new(std::io::Cursor::new(bytes)).map_err(|e| e.to_string())?);
+                let mut wrong = vec![];
+                for (i, var) in variants.iter().enumerate() {
+                    let page = parsed.get_page(i as u32).map_err(|e| e.to_string())?;
+                    let res = page.get_resources().ok_or("no resources")?;
+                    let xo = parsed.resolve(res.get("XObject").ok_or("no XObject")?).map_err(|e| e.to_string())?;
+                    let im = parsed.resolve(xo.as_dict().ok_or("XObject not a dict")?.get(&format!("Im{i}")).ok_or("image missing")?).map_err(|e| e.to_string())?;
+                    let st = match &im { PdfObject::Stream(s) => s, _ => return Err("image is not a stream".into()) };
+                    let got = parsed.decode_stream(st).map_err(|e| e.to_string())?;
+                    let src = mk(*var, rgba);
+                    let want: Vec<u8> = if rgba { src.chunks(4).flat_map(|p| p[..3].to_vec()).collect() } else { src.clone() };
+                    let mut ok = got == want;
+                    if rgba {
+                        let sm = parsed.resolve(st.dict.get("SMask").ok_or("no SMask")?).map_err(|e| e.to_string())?;
+                        let sms = match &sm { PdfObject::Stream(s) => s, _ => return Err("SMask is not a stream".into()) };
+                        let a = parsed.decode_stream(sms).map_err(|e| e.to_string())?;
+                        let wa: Vec<u8> = src.chunks(4).map(|p| p[3]).collect();
+                        ok = ok && a == wa;
+                    }
+                    if !ok { wrong.push(i); }
+                }
+                Ok(wrong)
+            });
+            let ok = matches!(&r, Ok(Ok(v)) if v.is_empty());
+            if !ok && bad.len() < 6 { bad.push(format!("{{\"document\":\"5 pages, one {} image of 96x64 each, buffers equal except in the middle / at the ends\",\"pages_with_wrong_pixels\":{}}}", if rgba { "RGBA" } else { "grey" }, js(&format!("{:?}", r.map_err(|_| "PANIC"))))); } else if !ok { bad.push(String::new()); }
+        }
+    }
     // raw buffers whose length equals width*height*4 (or width*height) only modulo 2^32: refused, never accepted and never a panic
     for (w, h, len, gray) in [(0x8000_0001u32, 2u32, 8usize, false), (65536, 65536, 0, false), (0x4000_0000, 4, 0, false), (65536, 65536, 0, true), (0x8000_0001, 2, 2, true)] {
         evaluated += 1;
@@ -1101,7 +1154,7 @@ fn cmd_image_alpha() {
         if !ok && bad.len() < 6 { bad.push(format!("{{\"raw_buffer\":\"{} bytes given as {w} x {h} {}\",\"outcome\":{}}}", len, if gray { "grey" } else { "RGBA" }, js(&format!("{:?}", r.map_err(|_| "PANIC"))))); } else if !ok { bad.push(String::new()); }
     }
     let n = bad.len(); bad.retain(|b| !b.is_empty());
-    println!("{{\"cmd\":\"image-alpha\",\"bound\":\"RGBA buffers of width 1..17 x height 1..3 x 4 alpha patterns (opaque, two binary, graded) -> image XObject + SMask decoded with byte-aligned rows; 6 PNG headers with extreme dimensions / bit depths; 5 raw buffers whose size matches the dimensions only modulo 2^32\",\"evaluated\":{},\"disagreement_count\":{},\"disagreements\":[{}]}}", evaluated, n, bad.join(","));
+    println!("{{\"cmd\":\"image-alpha\",\"bound\":\"RGBA buffers of width 1..17 x height 1..3 x 4 alpha patterns (opaque, two binary, graded) -> image XObject + SMask decoded with byte-aligned rows; 6 PNG headers with extreme dimensions / bit depths; 5 raw buffers whose size matches the dimensions only modulo 2^32; 2 five-page documents with same-size images that differ only in the middle / at the ends\",\"evaluated\":{},\"disagreement_count\":{},\"disagreements\":[{}]}}", evaluated, n, bad.join(","));
 }
 
 // C12 Eb: synthetic TrueType fonts (400 glyphs; composites incl. nested ones and one using the font's last glyph; short and long
